@@ -194,6 +194,11 @@ def run(ctx):
                 continue    # homograph: 'earliest', 'latest', 'fruehestens' are also parts of day (first / last)
             for lab, ptxt, D, C in pts:
                 cases.append({"text": w + " " + ptxt, "side": side, "D": D, "C": C, "ts": ts0, "label": key + ":" + lab, "form": w})
+                # the same word capitalised / in capitals (sentence start; the negation must be read whatever the case)
+                if lab in ("date", "clock"):
+                    for v in (w.capitalize(), w.upper(), w.title()):
+                        if v != w:
+                            cases.append({"text": v + " " + ptxt, "side": side, "D": D, "C": C, "ts": ts0, "label": key + ":" + lab + ":case", "form": w})
     core.run_stage(ctx, "e2e-half-open", cases, e2e.obs_halfopen, "DenoteTrace")
 
 
